@@ -920,11 +920,17 @@ class LoopModel:
         w.pc = 0                 # index into the script
         w.done = ()              # actions of the current ("par", ...) stage already executed
         w.last_emit = {}         # station -> tick of its last emitted VAM
+        w.members = {n: frozenset() for n in self.names}   # leader -> stations that announced a join to its cluster
+        w.last_lf = {}           # station -> tick of its last emitted VAM that carried the low-frequency container
         w.join = {}              # station -> ("notify"|"waiting", cluster id, since tick)
         w.leader_of = {}         # passive station -> station (name) whose cluster VAM completed its join
         w.advertised = None      # cluster id seen on the air by the harness
-        w.heard = {n: frozenset() for n in self.names}            # receiver -> station ids delivered so far
-        w.heard_clusters = {n: frozenset() for n in self.names}   # receiver -> cluster ids delivered so far
+        w.heard = {n: frozenset() for n in self.names}            # receiver -> station ids delivered so far (ever)
+        w.heard_clusters = {n: frozenset() for n in self.names}   # receiver -> cluster ids delivered so far (ever)
+        # receiver -> ((station or cluster id, tick of the last delivery), ...) since the receiver's last update() that
+        # was more than T_GenVamMax later: distinguishes states whose public nearby counts will differ later
+        w.recent = {n: () for n in self.names}
+        w.recent_clusters = {n: () for n in self.names}
         w.bad = []
         return w
 
@@ -947,13 +953,17 @@ class LoopModel:
 
     def canon(self, w):
         """Public observation of every manager + the harness's own knowledge (script position, actions done in the
-        stage, clock, queued payload bytes, last emission per station, join phases, stations/clusters heard).  Inside
+        stage, clock, queued payload bytes, last emission and last low-frequency container per station as seen on the
+        air, join phases, stations/clusters heard).  Inside
         one stage all orders share the same clock, so hidden time stamps are functions of exactly these."""
         st = tuple((n, public_view(observe(w, w.mgr(n)))) for n in w.names)
         return (w.pc, tuple(sorted(w.done)), w.k, st, tuple((l, tuple(q)) for l, q in sorted(w.queues.items()) if q),
-                tuple(sorted(w.last_emit.items())), tuple(sorted(w.join.items())), tuple(sorted(w.leader_of.items())), w.advertised,
+                tuple(sorted(w.last_emit.items())), tuple(sorted(w.last_lf.items())), tuple(sorted(w.join.items())),
+                tuple(sorted(w.leader_of.items())), w.advertised,
+                tuple(sorted((n, tuple(sorted(v))) for n, v in w.members.items() if w.mgr(n).state is VBSState.VRU_ACTIVE_CLUSTER_LEADER)),
                 tuple(sorted((n, tuple(sorted(v))) for n, v in w.heard.items())),
-                tuple(sorted((n, tuple(sorted(v))) for n, v in w.heard_clusters.items())))
+                tuple(sorted((n, tuple(sorted(v))) for n, v in w.heard_clusters.items())),
+                tuple(sorted(w.recent.items())), tuple(sorted(w.recent_clusters.items())))
 
     def outcome(self, w, obs):
         return obs
@@ -980,6 +990,7 @@ class LoopModel:
         elif kind == "ghosts":
             for g in GHOSTS:
                 self._guard(w, ev, lambda g=g: w.inject(ev[1], V.encode(V.full_vam(g))))
+                w.recent[ev[1]] = tuple(sorted(dict(w.recent[ev[1]], **{str(g): w.k}).items()))
         elif kind == "create":
             old = ENV.rand_int
             ENV.rand_int = staticmethod(lambda a, b: ADV)
@@ -1066,6 +1077,8 @@ class LoopModel:
                 w.bad.append(dict(kind="emitted_undecodable", err=derr, **base, _cut=True))
                 continue
             sm = vam_summary(vam)
+            if "vruLowFrequencyContainer" in vam["vam"]["vamParameters"]:
+                w.last_lf[n] = w.k
             want_info = None
             if pre["info"] is not None:
                 vci = pre["info"]["vruClusterInformation"]
@@ -1111,15 +1124,26 @@ class LoopModel:
         if nv < 1 or nv < pre_nv or (first and nv != pre_nv + 1):
             w.bad.append(dict(kind="rx_not_reflected", what="nearby_vru", receiver=dst, has_info=sm["info"] is not None, _cut=True))
         w.heard[dst] = w.heard[dst] | {sm["sid"]}
+        w.recent[dst] = tuple(sorted(dict(w.recent[dst], **{str(sm["sid"]): w.k}).items()))
         if sm["info"] is not None:
             first_c = sm["info"][0] not in w.heard_clusters[dst]
             if nc < 1 or nc < pre_nc or (first_c and nc != pre_nc + 1):
                 w.bad.append(dict(kind="rx_not_reflected", what="nearby_cluster", receiver=dst, has_info=True, _cut=True))
             w.heard_clusters[dst] = w.heard_clusters[dst] | {sm["info"][0]}
+            w.recent_clusters[dst] = tuple(sorted(dict(w.recent_clusters[dst], **{str(sm["info"][0]): w.k}).items()))
             if jp is not None and jp[0] == "waiting" and jp[1] == sm["info"][0] and "breakup" not in sm["notif"]:
                 if post_state != "VRU_PASSIVE":
                     w.bad.append(dict(kind="join_not_completed", form="loop", receiver=dst, target=jp[1], state=post_state, _cut=True))
                 w.join.pop(dst, None)
+        if post_state == "VRU_ACTIVE_CLUSTER_LEADER":
+            with w:
+                own = m.get_cluster_id()
+            mem = set(w.members[dst])
+            if "join" in sm["notif"] and sm["notif"]["join"][0] == own:
+                mem.add(sm["sid"])
+            if "leave" in sm["notif"] and sm["notif"]["leave"][0] == own:
+                mem.discard(sm["sid"])
+            w.members[dst] = frozenset(mem)
         if post_state == "VRU_PASSIVE" and pre_state != "VRU_PASSIVE":
             w.leader_of[dst] = src
             w.join.pop(dst, None)
@@ -1131,6 +1155,8 @@ class LoopModel:
         lat, lon = V.pos_of(w.ids[n])
         with w:
             self._guard(w, ("update", n), lambda: w.mgr(n).update(lat, lon, 1.0, 90.0))
+        w.recent[n] = tuple((i, k0) for i, k0 in w.recent[n] if w.k - k0 < D_NEAR)
+        w.recent_clusters[n] = tuple((i, k0) for i, k0 in w.recent_clusters[n] if w.k - k0 < D_NEAR)
         jp = w.join.get(n)
         if jp is not None:
             if jp[0] == "notify" and w.k - jp[2] >= D_JOIN:
